@@ -23,10 +23,11 @@ THello == Consume("hello") /\ ~Ev.skip /\ Hello(Ev.s, Ev.x, Ev.c) /\ Obs
 TAuth == Consume("auth") /\ ~Ev.skip /\ Auth(Ev.s, Ev.src, Ev.acct, <<Ev.pfk, Ev.pfj>>, Ev.c) /\ Obs
 TAccept == Consume("accept") /\ ~Ev.skip /\ Accept(Ev.s, Ev.src, <<Ev.pfk, Ev.pfj>>, Ev.c) /\ Obs
 TAck == Consume("ack") /\ ~Ev.skip /\ Ack(Ev.s, Ev.src, Ev.x, Ev.c) /\ Obs
+TDrop == Consume("drop") /\ ~Ev.skip /\ Drop(Ev.s) /\ Obs
 \* a scripted delivery the intruder could not perform as scripted (the real session had already
 \* returned, or the frame / proof to replay was never emitted): the stream is closed instead, which
 \* the model sees as the session being abandoned
-TSkip == /\ l <= Len(TraceLog) /\ Ev.ev \in {"hello", "auth", "accept", "ack"} /\ Ev.skip
+TSkip == /\ l <= Len(TraceLog) /\ Ev.ev \in {"hello", "auth", "accept", "ack", "drop"} /\ Ev.skip
          /\ l' = l + 1 /\ UNCHANGED vars
 
 \* final returns: a session that is still live when the script ends sees its stream closed
@@ -39,7 +40,7 @@ FinOK(i) == LET o == Ev.sess[i] IN
                    /\ (~sess[i].fail) => o.pe = PeName(i)
 TFin == Consume("fin") /\ (\A i \in Slots : FinOK(i)) /\ UNCHANGED vars
 
-TNext == TReset \/ TStart \/ THello \/ TAuth \/ TAccept \/ TAck \/ TSkip \/ TFin
+TNext == TReset \/ TStart \/ THello \/ TAuth \/ TAccept \/ TAck \/ TDrop \/ TSkip \/ TFin
 TInit == Init /\ l = 1 /\ TLCSet(42, 1)
 TSpec == TInit /\ [][TNext]_tvars
 
